@@ -74,7 +74,10 @@ World(kinds, pre, slots) ==
                      [type |-> "B", driver |-> "gpu", pool |-> "g", slots |-> 0, devices |-> <<Dev("g0", FALSE, 0, 0), Dev("g1", FALSE, 0, 0)>>],
                      [type |-> "B", driver |-> "tshm", pool |-> "tp", slots |-> 0, devices |-> <<Dev("t0", TRUE, 4, 0)>>]>>,
      claims |-> [i \in 1..NClaims |-> Claim(i, kinds[i])] \o PreClaim(pre)]
-KindSeqs == {s \in [1..NClaims -> Kinds] : TRUE}
+\* claims are interchangeable (every allocation order is explored anyway): kind MULTISETS, as non-decreasing sequences
+KOrd == <<"net", "net2", "shm2", "shm3", "gpu", "tshm">>
+KIdx(k) == CHOOSE i \in DOMAIN KOrd : KOrd[i] = k
+KindSeqs == {s \in [1..NClaims -> Kinds] : \A i \in 1..(NClaims - 1) : KIdx(s[i]) <= KIdx(s[i + 1])}
 
 \* what a kind asks for: candidate device keys (in-cluster or template of type t), how many, consumed share
 KDriver(kind) == CASE kind \in {"net", "net2"} -> "net" [] kind \in {"shm2", "shm3"} -> "shm" [] kind = "tshm" -> "tshm" [] OTHER -> "gpu"
